@@ -3,6 +3,8 @@
 #include "common.h"
 #include <Bpp/Text/TextTools.h>
 #include <Bpp/Text/KeyvalTools.h>
+#include <Bpp/Text/StringTokenizer.h>
+#include <Bpp/Text/NestedStringTokenizer.h>
 #include <Bpp/Utils/AttributesTools.h>
 #include <Bpp/App/ApplicationTools.h>
 #include <Bpp/Numeric/ParameterList.h>
@@ -82,9 +84,56 @@ static std::string varsGuarded(const std::map<std::string, std::string>& m) {
   return "harness-fork-failed";
 }
 
+// `splits_` is protected: a derived class may read it
+struct TokAccess : public StringTokenizer {
+  TokAccess(const std::string& s, const std::string& d, bool solid, bool ae) : StringTokenizer(s, d, solid, ae) {}
+  const std::deque<std::string>& splits() const { return splits_; }
+};
+
+struct NestedAccess : public NestedStringTokenizer {
+  NestedAccess(const std::string& s, const std::string& o, const std::string& e, const std::string& d, bool solid)
+    : NestedStringTokenizer(s, o, e, d, solid) {}
+  const std::deque<std::string>& splits() const { return splits_; }
+};
+
+template <class C> static std::string showStrs(const C& v) {
+  std::string s = std::to_string(v.size());
+  for (const auto& x : v) s += " " + strToHex(x);
+  return s;
+}
+
 static std::string op(const Toks& t) {
   const std::string& o = t[0];
   try {
+    if (o == "st.rt") {          // st.rt <s> <delims> <solid> <allowEmpty> <k>
+      std::string s = hexToStr(t[1]), d = hexToStr(t[2]); size_t k = toU(t[5]);
+      TokAccess st(s, d, t[3] == "1", t[4] == "1");
+      std::deque<std::string> tokens = st.getTokens();
+      std::string out = showStrs(tokens) + " / " + showStrs(st.splits()) + " / " + strToHex(st.unparseRemainingTokens()) + " / ";
+      size_t kk = std::min(k, tokens.size());
+      std::vector<std::string> got;
+      for (size_t i = 0; i < kk; ++i) got.push_back(st.nextToken());
+      out += showStrs(got) + " / " + strToHex(st.unparseRemainingTokens()) + " / ";
+      if (kk == tokens.size()) {
+        try { st.nextToken(); out += "!"; } catch (Exception&) { out += "x"; }
+      } else out += "-";
+      return out;
+    }
+    if (o == "nst.rt") {         // nst.rt <s> <open> <end> <delims> <solid> <k>
+      std::string s = hexToStr(t[1]); size_t k = toU(t[6]);
+      NestedAccess nst(s, hexToStr(t[2]), hexToStr(t[3]), hexToStr(t[4]), t[5] == "1");
+      const StringTokenizer& base = nst;           // unparse through the base class, as a client holding a StringTokenizer& does
+      std::deque<std::string> tokens = nst.getTokens();
+      std::string out = showStrs(tokens) + " / " + showStrs(nst.splits()) + " / " + strToHex(base.unparseRemainingTokens()) + " / ";
+      size_t kk = std::min(k, tokens.size());
+      std::vector<std::string> got;
+      for (size_t i = 0; i < kk; ++i) got.push_back(nst.nextToken());
+      out += showStrs(got) + " / " + strToHex(nst.unparseRemainingTokens()) + " / ";
+      if (kk == tokens.size()) {
+        try { nst.nextToken(); out += "!"; } catch (Exception&) { out += "x"; }
+      } else out += "-";
+      return out;
+    }
     if (o == "num") {            // num <s> <dec> <sci>
       std::string s = hexToStr(t[1]); char dec = hexToStr(t[2])[0], sci = hexToStr(t[3])[0];
       std::string out = TextTools::isDecimalNumber(s, dec, sci) ? "1" : "0";
